@@ -9,7 +9,12 @@ pub struct Args {
 
 impl Args {
     pub fn from_env() -> Args {
-        Self::from_vec(std::env::args().skip(1).collect())
+        let a = Self::from_vec(std::env::args().skip(1).collect());
+        // --unwinding-every N: every N-th guarded call of each thread is made from a destructor during unwinding
+        if let Some(n) = a.get("unwinding-every").and_then(|s| s.parse::<u32>().ok()) {
+            crate::panics::set_unwind_every(n);
+        }
+        a
     }
 
     pub fn from_vec(v: Vec<String>) -> Args {
